@@ -78,13 +78,17 @@ pub mod tokio {
                 /// queue is drained: for `DuplexIncoming` this is the loss of the listener itself
                 pub uninterp spec fn closed(&self) -> bool;
 
+                /// ghost: the most recent `poll_recv` returned `Pending` - the queue was empty and the task's waker
+                /// is registered with the channel (the task is woken by the next `send`)
+                pub uninterp spec fn waiting(&self) -> bool;
+
                 #[verifier::external_body]
                 pub fn poll_recv(&mut self, cx: &mut Context<'_>) -> (r: Poll<Option<T>>)
                     ensures
                         match r {
-                            Poll::Ready(Some(v)) => final(self).taken() == old(self).taken().push(v) && !final(self).closed(),
-                            Poll::Ready(None) => final(self).taken() == old(self).taken() && final(self).closed(),
-                            Poll::Pending => final(self).taken() == old(self).taken() && !final(self).closed(),
+                            Poll::Ready(Some(v)) => final(self).taken() == old(self).taken().push(v) && !final(self).closed() && !final(self).waiting(),
+                            Poll::Ready(None) => final(self).taken() == old(self).taken() && final(self).closed() && !final(self).waiting(),
+                            Poll::Pending => final(self).taken() == old(self).taken() && !final(self).closed() && final(self).waiting(),
                         }
                 { unimplemented!() }
             }
